@@ -19,6 +19,9 @@ pub enum Op {
     Fmt(Vec<usize>),
     /// like `Fmt` but the `Display` impl fails after `.1` fragments
     FmtFail(Vec<usize>, usize),
+    /// one `write!` with a *literal-only* format string (entry `.0` of `streams::LITS`), the shape
+    /// for which `fmt::Arguments::as_str()` is `Some` and fast paths exist
+    FmtLit(usize),
     /// one `flush` call
     Flush,
 }
@@ -28,6 +31,7 @@ impl Op {
         match self {
             Op::Chunk(n) | Op::Write(n) | Op::WriteAll(n) => *n,
             Op::Vectored(v) | Op::Fmt(v) | Op::FmtFail(v, _) => v.iter().sum(),
+            Op::FmtLit(k) => crate::streams::LITS.get(*k).map(|s| s.len()).unwrap_or(0),
             Op::Flush => 0,
         }
     }
@@ -39,6 +43,7 @@ impl Op {
             Op::Vectored(_) => "write_vectored",
             Op::Fmt(_) => "write_fmt",
             Op::FmtFail(..) => "write_fmt_fail",
+            Op::FmtLit(_) => "write_fmt_literal",
             Op::Flush => "flush",
         }
     }
@@ -71,7 +76,7 @@ impl Trace {
         for op in &self.ops {
             h.str(op.name());
             match op {
-                Op::Chunk(n) | Op::Write(n) | Op::WriteAll(n) => h.u64(*n as u64),
+                Op::Chunk(n) | Op::Write(n) | Op::WriteAll(n) | Op::FmtLit(n) => h.u64(*n as u64),
                 Op::Vectored(v) | Op::Fmt(v) => {
                     for x in v {
                         h.u64(*x as u64)
@@ -161,6 +166,7 @@ fn op_json(op: &Op) -> Value {
         Op::Chunk(n) | Op::Write(n) | Op::WriteAll(n) => json!({"op": op.name(), "len": n}),
         Op::Vectored(v) | Op::Fmt(v) => json!({"op": op.name(), "lens": v}),
         Op::FmtFail(v, k) => json!({"op": op.name(), "lens": v, "fail_after": k}),
+        Op::FmtLit(k) => json!({"op": op.name(), "literal_index": k, "literal": crate::streams::LITS.get(*k)}),
         Op::Flush => json!({"op": "flush"}),
     }
 }
@@ -186,6 +192,7 @@ fn op_from(v: &Value) -> Result<Op, String> {
             lens()?,
             v.get("fail_after").and_then(|x| x.as_u64()).unwrap_or(0) as usize,
         ),
+        "write_fmt_literal" => Op::FmtLit(v.get("literal_index").and_then(|x| x.as_u64()).unwrap_or(0) as usize),
         "flush" => Op::Flush,
         other => return Err(format!("unknown op {other}")),
     })
